@@ -369,7 +369,10 @@ func (m *Encoder) encodeArray(v reflect.Value, hint Type) error {
 
 // EncodeStruct encodes a struct to the output writer as an Ion struct.
 func (m *Encoder) encodeStruct(v reflect.Value) error {
-	fields := fieldsFor(v.Type())
+	fields, err := fieldsFor(v.Type())
+	if err != nil {
+		return err
+	}
 	for _, field := range fields {
 		if field.annotations {
 			return m.encodeWithAnnotation(v, fields)
